@@ -1,7 +1,8 @@
 (* C06 - Delivered clouds: non-empty, well-shaped, gap-free seq, no stale points. *)
 From RS Require Import Base.Tac Base.Bytes Base.Dyadic Model.Desc Model.Kernels Model.Decoder Model.Driver Model.Oracles.
-From RS Require Import Gen.Params_gen Proofs.Stream Proofs.DriverInv Proofs.Conservation.
+From RS Require Import Gen.Params_gen Gen.Kernels_gen Proofs.Stream Proofs.DriverInv Proofs.Conservation Proofs.Handover.
 Local Open Scope Z_scope.
+
 
 (* T1: for every descriptor, configuration, caller behaviour of the get callback (any script of
    buffers and nulls), and packet list: the whole output history of a session passes `scan`, i.e.
@@ -38,6 +39,40 @@ Theorem C06_T4_no_stale : forall bs v th now,
   pts_of (snd r) ++ v_open (fst (fst r)) = v_open v ++ flat_map bo_points bs.
 Proof. intros bs v th now. exact (proj1 (feed_blocks_spec bs v th now)). Qed.
 Print Assumptions C06_T4_no_stale.
+
+(* T7: the hand-over code itself. splitFrame(), setPointCloudHeader() and getPointCloud() of lidar_driver_impl.hpp are regenerated on
+   every run as statement trees (Gen/Kernels_gen.v, leaves = source text); Proofs/Handover.v gives every leaf a meaning on the model's
+   driver state through a fixed dictionary and interprets `if` / `while` / `return`. The interpreted current source IS the model's
+   split_frame / header / get_cloud, for every state, every script of the get callback and every clock value: a frame is delivered
+   iff it is non-empty, with its header (seq consumed only then, height / width / is_dense as configured) and all its points, BEFORE the
+   caller is asked for the next buffer; null answers are retried and reported through the throttle; the buffer handed to the decoder is emptied *)
+Theorem C06_T7_splitFrame_code_is_model v th now ts :
+  exists s, run sst (s_atom now ts) s_cond 8 LidarDriverImpl_splitFrame_effects (mk_sst v th [] None None) = Go s /\
+            (s_v s, s_th s, s_out s) = split_frame v th now ts.
+Proof. exact (splitFrame_code_is_model v th now ts). Qed.
+Print Assumptions C06_T7_splitFrame_code_is_model.
+Theorem C06_T7_header_code_is_model dense lasers n seq ts h0 :
+  0 <= n < 4294967296 -> 0 < lasers -> hd_next_seq h0 = seq -> hd_npts h0 = n ->
+  exists h, run hst (h_atom dense lasers ts) h_cond 12 LidarDriverImpl_setPointCloudHeader_effects h0 = Go h /\
+            (hd_seq h, hd_ts h, hd_dense h, hd_height h, hd_width h) = model_header dense lasers n seq ts /\
+            hd_next_seq h = (seq + 1) mod 4294967296 /\ hd_frame_id h = true.
+Proof. exact (setPointCloudHeader_code_is_model dense lasers n seq ts h0). Qed.
+Theorem C06_T7_getPointCloud_code_is_model now ans fresh th o0 :
+  let '(id, a, f, th1, o) := get_cloud (S (length ans)) ans fresh th now in
+  run_get now LidarDriverImpl_getPointCloud_effects (6 + length ans) (mk_gst ans fresh th o0 None false) =
+  Ret (mk_gst a f th1 (o0 ++ o) (Some id) true) ret_cloud.
+Proof. exact (getPointCloud_code_is_model now ans fresh th o0). Qed.
+Print Assumptions C06_T7_getPointCloud_code_is_model.
+(* non-vacuity of T7: an open frame of two points, a caller that answers null once: the cloud goes out first, then get / report / get *)
+Example C06_T7_example :
+  let v := mk_drv desc_RS32 (mk_dcfg false true 1 0 1 dy_zero dy_zero 0 36000 true false false 0 0 0 false []) (init_dstate desc_RS32 (mk_dcfg false true 1 0 1 dy_zero dy_zero 0 36000 true false false 0 0 0 false []))
+                  7 [mk_point PNone 1 2 3; mk_point PNone 4 5 6] 0 41 [None; Some 9] 1000 in
+  match run sst (s_atom 100 555) s_cond 8 LidarDriverImpl_splitFrame_effects (mk_sst v [] [] None None) with
+  | Go s => map (fun o => match o with OCloud c => (cl_seq c, cl_buf c, Z.of_nat (length (cl_points c))) | OGet (Some b) => (-1, b, 0) | OGet None => (-2, 0, 0) | OErr c => (-3, c, 0) | _ => (-4, 0, 0) end) (s_out s)
+            = [(41, 7, 2); (-2, 0, 0); (-3, 130, 0); (-1, 9, 0)] /\ v_cloud_seq (s_v s) = 42 /\ v_open_buf (s_v s) = 9
+  | _ => False
+  end.
+Proof. vm_compute. repeat split; reflexivity. Qed.
 
 (* non-vacuity: a session with a null answer, a recycled id and two clouds *)
 Example C06_nonvacuous :
